@@ -473,9 +473,11 @@ namespace R
             if( at.kind == AK_LIMIT_BYTES && r.pos == end2 && end2 != end ) r = { RAISE, 0, WHO_LIMIT_BYTES, r.pos, r.pos, -1 };
             if( at.kind == AK_CHECK_BYTES && r.pos - pos > at.n ) r = { RAISE, 0, WHO_CHECK_BYTES, r.pos, r.pos, -1 };
          }
+         bool failed_then_raised = false;
          if( r.k == FAIL && raises_on_failure( I ) ) {
             // must_if control: the failure hook of this rule raises (position: wherever the failed attempt left the cursor)
             r = { RAISE, 0, I, pos, std::max( pos, hw_rule ), -1 };
+            failed_then_raised = true;  // the attempt itself ended as a local failure (what a state wrapped around the control is told)
          }
          for( int k = nscopes - 1; k >= 0; --k ) {
             if( r.k == OK && scopes[ k ].am_seen ) st_log.push_back( { 1, scopes[ k ].state, r.pos, scopes[ k ].outer_state } );
@@ -486,7 +488,7 @@ namespace R
             trail.resize( mark );
             sw_acts.resize( sw_mark );
          }
-         ++cov[ I ][ r.k == OK ? 1 : r.k == FAIL ? 2 : 3 ];
+         ++cov[ I ][ r.k == OK ? 1 : ( r.k == FAIL || failed_then_raised ) ? 2 : 3 ];
          return r;
       }
 
@@ -847,6 +849,7 @@ namespace R
                if( catches( op, r.k ) ) return { NESTED, 0, a, pos, pos, r.k };
                return r;
             }
+            case TC_RN_MSG: return { NESTED, 0, WHO_RAISE_MSG, pos, pos, RAISE };  // the rule's own error_message is used for the outer exception too
             case OPT_ONE_A: return ( pos < end && ch( pos ) == 'a' ) ? ok( pos + 1 ) : ok( pos );
             case AT_ONE_A: return ( pos < end && ch( pos ) == 'a' ) ? ok( pos ) : fail();
             case NOT_AT_ONE_A: return ( pos < end && ch( pos ) == 'a' ) ? fail() : ok( pos );
@@ -918,6 +921,11 @@ namespace R
             case ACTION_SW: {  // action< act_odd, R >: family 4 (actions on odd rules only) inside R, the old family again afterwards
                Ctx in = am;
                in.fam = 4;
+               return ev( a, pos, end, in );
+            }
+            case ACTION_FAMALT: {  // action< fam_alt, R >: the alternative attachment family inside R, whatever the apply mode
+               Ctx in = am;
+               in.fam = FAM_ALT;
                return ev( a, pos, end, in );
             }
             case CONTROL_SW: {
